@@ -20,6 +20,34 @@ mod interpose {
         libc::syscall(libc::SYS_gettimeofday, tv, tz) as libc::c_int
     }
 
+    /// Environment reads are ambient state too (C20): `std::env::var` goes through libc's getenv.
+    /// Re-implemented over `environ` (the libc one cannot be reached once it is shadowed).
+    #[no_mangle]
+    pub unsafe extern "C" fn getenv(name: *const libc::c_char) -> *mut libc::c_char {
+        extern "C" {
+            static environ: *const *mut libc::c_char;
+        }
+        stunmon::clock::on_env_read();
+        if name.is_null() || environ.is_null() {
+            return std::ptr::null_mut();
+        }
+        let n = libc::strlen(name);
+        let mut p = environ;
+        while !(*p).is_null() {
+            let e = *p;
+            if libc::strncmp(e, name, n) == 0 && *e.add(n) == b'=' as libc::c_char {
+                return e.add(n + 1);
+            }
+            p = p.add(1);
+        }
+        std::ptr::null_mut()
+    }
+
+    #[no_mangle]
+    pub unsafe extern "C" fn secure_getenv(name: *const libc::c_char) -> *mut libc::c_char {
+        getenv(name)
+    }
+
     #[no_mangle]
     pub unsafe extern "C" fn time(t: *mut libc::time_t) -> libc::time_t {
         on_clock_read();
